@@ -1,1 +1,24 @@
 use super::*;
+
+//@ prop: C17
+//@ tier: quick
+//@ clause: the outbound guard refuses exactly the sizes above the configured limit and nothing when no limit is configured
+//@ funcs: WebSocketLimits::check_outbound
+//@ symbolic: size and limit over the full usize range; limit present or absent
+//@ bounds: none (loop-free)
+//@ oracle: Err iff Some(limit) and size > limit; the error carries the same size and limit
+#[kani::proof]
+fn c17_check_outbound_exact() {
+    let size: usize = kani::any();
+    let limit: Option<usize> = if kani::any() { Some(kani::any()) } else { None };
+    let l = WebSocketLimits::unlimited().with_assumed_peer_frame_limit(limit);
+    match l.check_outbound(size) {
+        Ok(()) => assert!(limit.map(|x| size <= x).unwrap_or(true)),
+        Err(crate::RepeError::MessageTooLarge { size: s, limit: x }) => {
+            assert!(limit == Some(x) && s == size && size > x);
+        }
+        Err(_) => panic!("unexpected error kind"),
+    }
+    kani::cover!(limit == Some(size));
+    kani::cover!(limit.is_some() && limit.unwrap() < usize::MAX && size == limit.unwrap() + 1);
+}
